@@ -29,13 +29,17 @@ Decode(L, o, n) ==
   IF L < HeadSize \/ o < HeadSize \/ o + WordSize > L \/ o + WordSize + n > L THEN Fail
   ELSE Slice(o + WordSize, n)
 
-(* the code: offset and length are read from the low 8 bytes of their words *)
+(* the code: offset and length are read from the low 8 bytes of their words; since
+   "fix: reject chainlink report envelopes whose 256-bit offset or length word has high bytes set"
+   a word with any of its high 24 bytes set is rejected (before the repair they were ignored) *)
 CodeDecode(L, ow, nw) ==
   IF L < HeadSize THEN Fail
+  ELSE IF ow.hi # 0 THEN Fail
   ELSE LET o == ow.lo IN
     IF o < HeadSize THEN Fail
     ELSE IF o + WordSize >= USize THEN Fail                 \* checked_add
     ELSE IF o + WordSize > L THEN Fail
+    ELSE IF nw.hi # 0 THEN Fail
     ELSE LET n == nw.lo IN
       IF o + WordSize + n >= USize THEN Fail                \* checked_add
       ELSE IF o + WordSize + n > L THEN Fail
